@@ -55,6 +55,15 @@ def gen(tier, rnd):
                 case(win, b12, 1, ['N', 'N', 'H %d' % c, 'F %d' % L, 'G %d %d' % (L, c), 'G %d %d' % (L, c + 1), 'G %d %d' % (L, c - 1), 'R %d' % c, 'N', 'R %d' % c])
                 case(win, b12, 1, ['N', 'N', 'H %d' % c, 'F %d' % L, 'R %d' % c, 'G %d %d' % (L, c), 'R %d' % c])
                 case(win, b12, 1, ['N', 'N', 'F %d' % L, 'G %d %d' % (L, c), 'F %d' % c, 'R %d' % c])
+    # the recipient is still in its initial state (Appendix B.1.2: every arrival is challenged with a protected 4.01 + fresh Echo) and the same
+    # first request arrives again and again (its answer was lost, or somebody replays it): every challenge is a different message and needs its
+    # own nonce; likewise the requests that follow while the client never sees an answer
+    for win in (32, 8):
+        case(win, 1, 1, ['H 0', 'R 0', 'R 0', 'R 0', 'N', 'N', 'R 0'])
+        case(win, 1, 1, ['H 0', 'H 1', 'R 1', 'R 0', 'R 1', 'R 0', 'N', 'R 1'])
+        case(win, 1, 1, ['H 0', 'R 0', 'G 0 0', 'G 0 5', 'R 0', 'N', 'N'])
+        case(win, 0, 1, ['H 0', 'G 0 0', 'R 0', 'R 0', 'N'])
+        case(win, 0, 1, ['H 0', 'H 1', 'G 1 0', 'G 1 1', 'R 1', 'R 0', 'R 0', 'N'])
     # sender: save callback and restarts at every point
     for freq in (1, 2, 3, 10):
         for k in range(0, 8):
@@ -102,7 +111,7 @@ def run(pid, tier):
     t0 = time.time()
     rnd = random.Random(V.seed() * 99991 + 15)
     out = V.outdir(pid, tier)
-    drv = V.link('drv_replay', ['drv_replay.c', 'simnet.c'], V.SIM_WRAPS)
+    drv = V.link('drv_replay', ['drv_replay.c', 'simnet.c'], V.SIM_WRAPS + ['coap_crypto_aead_encrypt'])
     mcst = V.mc('Replay', 'MC_Replay.cfg' if tier == 'quick' else 'MC_Replay_thorough.cfg',
                 must_fire=['RxGenuine', 'RxForged', 'Protect', 'Skip', 'CrashRestart'], timeout=3000, xmx='16g')
     if mcst['violated']:
